@@ -87,6 +87,12 @@ func (m *authenticatedMap[IdentifierType, K, V]) Set(key K, value V) error {
 		return ierrors.Wrap(err, "failed to serialize value")
 	}
 
+	// the tree reports an absent key as a nil value, so an empty value must be stored as a non-nil empty slice,
+	// otherwise a key whose value serializes to nil is written but reported as missing.
+	if valueBytes == nil {
+		valueBytes = []byte{}
+	}
+
 	keyBytes, err := m.keyToBytes(key)
 	if err != nil {
 		return ierrors.Wrap(err, "failed to serialize key")
